@@ -92,6 +92,7 @@ pub mod rustix_fs {
     pub fn renameat<Fd1: AsFd, P1: AsRefPath, Fd2: AsFd, P2: AsRefPath>(old_dirfd: Fd1, old_path: P1, new_dirfd: Fd2, new_path: P2) -> (r: Result<(), Errno>)
         requires valid_dirfd(old_dirfd.fd_id()), valid_dirfd(new_dirfd.fd_id()),
             old_dirfd.fd_id() == requested_passthrough_fd(0), new_dirfd.fd_id() == requested_passthrough_fd(1),   // [C14.rustix_renameat.old_new_not_swapped]
+            requested_passthrough_flags() == 0,                      // [C10+C14.rustix_renameat.plain_rename_only_when_no_flags_were_requested]
             old_path.pview() == requested_path(10), new_path.pview() == requested_path(11),
     { unimplemented!() }
     #[verifier::external_body]
